@@ -62,6 +62,70 @@ type ReplayFile struct {
 	Trace     []string        `json:"trace"`
 	Sample    interface{}     `json:"case"`
 	Env       map[string]string `json:"env,omitempty"`
+	// Crash is set when the run kills the process (Go fatal error in the code under test): the run is
+	// re-executed from RunSeed (explore) or Tape (sweep) in a child process and the crash summary compared.
+	Crash     bool              `json:"crash,omitempty"`
+	CrashTape bool              `json:"crash_uses_tape,omitempty"`
+}
+
+type inflightRec struct {
+	Entry   string   `json:"entry"`
+	Seed    uint64   `json:"seed"`
+	Tape    []uint64 `json:"tape,omitempty"`
+	HasTape bool     `json:"has_tape"`
+}
+
+// crashRun executes one run in a child process and, if the child dies with a Go fatal error or an
+// unrecovered panic, returns a deterministic summary of it (error line and frames of the code under test).
+func crashRun(prop, entry string, quick bool, seed uint64, tape []uint64, useTape bool) (crashed bool, summary string, frames []string) {
+	self, _ := os.Executable()
+	args := []string{"runtape", "-prop", prop, "-entry", entry, fmt.Sprintf("-quick=%v", quick)}
+	if useTape {
+		f, err := os.CreateTemp("", "simrun-tape-")
+		if err != nil {
+			return false, "", nil
+		}
+		defer os.Remove(f.Name())
+		b, _ := json.Marshal(tape)
+		f.Write(b)
+		f.Close()
+		args = append(args, "-tapefile", f.Name())
+	} else {
+		args = append(args, "-seed", fmt.Sprint(seed))
+	}
+	cmd := exec.Command(self, args...)
+	env := []string{}
+	for _, kv := range os.Environ() {
+		if !strings.HasPrefix(kv, "SIMRUN_RACELOG=") && !strings.HasPrefix(kv, "GORACE=") {
+			env = append(env, kv)
+		}
+	}
+	cmd.Env = append(env, "GOTRACEBACK=single")
+	out, err := cmd.CombinedOutput()
+	if err == nil || strings.Contains(string(out), "TAPERESULT ") || strings.Contains(string(out), "HARNESS: watchdog") {
+		return false, "", nil
+	}
+	lines := strings.Split(string(out), "\n")
+	for _, l := range lines {
+		if summary == "" && (strings.HasPrefix(l, "fatal error:") || strings.HasPrefix(l, "panic:")) {
+			summary = strings.TrimSpace(l)
+		}
+		if strings.HasPrefix(l, "golang.org/x/mod/") {
+			fn := l
+			if i := strings.LastIndex(fn, "("); i >= 0 {
+				fn = fn[:i]
+			}
+			if len(frames) == 0 || frames[len(frames)-1] != fn {
+				if len(frames) < 6 {
+					frames = append(frames, fn)
+				}
+			}
+		}
+	}
+	if summary == "" {
+		return false, "", nil
+	}
+	return true, summary, frames
 }
 
 func violationKey(v *core.Violation) string { return v.Property + "|" + v.Oracle + "|" + v.Signature }
@@ -115,6 +179,7 @@ func cmdWorker(args []string) int {
 	sweepBudget := fs.Duration("sweepbudget", 10*time.Second, "")
 	out := fs.String("out", "", "")
 	replayDir := fs.String("replaydir", "", "")
+	inflightPath := fs.String("inflight", "", "")
 	fs.Parse(args)
 	ensureRaceLog()
 	p := core.Lookup(*propID)
@@ -124,6 +189,27 @@ func cmdWorker(args []string) int {
 	}
 	core.SetTier(*quick)
 	start := time.Now()
+	// Before every run the worker notes what it is about to execute, so that if the code under test
+	// kills the process (stack overflow, concurrent map access: fatal errors cannot be recovered) the
+	// driver can re-execute exactly that run in a fresh process and report the crash with a replay file.
+	var inflightFile *os.File
+	if *inflightPath != "" {
+		inflightFile, _ = os.OpenFile(*inflightPath, os.O_CREATE|os.O_RDWR|os.O_TRUNC, 0o644)
+	}
+	noteInflight := func(entry string, seed uint64, tape []uint64) {
+		if inflightFile == nil {
+			return
+		}
+		rec, _ := json.Marshal(inflightRec{Entry: entry, Seed: seed, Tape: tape, HasTape: tape != nil})
+		rec = append(rec, '\n')
+		for len(rec) < 256 {
+			rec = append(rec, ' ')
+		}
+		inflightFile.WriteAt(rec, 0)
+		if len(rec) > 256 {
+			inflightFile.Truncate(int64(len(rec)))
+		}
+	}
 	so := &ShardOut{PerEntry: map[string]int{}, Faults: map[string]int{}, Probes: map[string]int{}, SweepDone: map[string]bool{}, SweepCases: map[string]int{}}
 	sigs := map[uint64]bool{}
 	seenViol := map[string]bool{}
@@ -167,6 +253,7 @@ func cmdWorker(args []string) int {
 			}
 			src := choice.Replay(c)
 			kickWatchdog("shrinking " + e.Name)
+			noteInflight(e.Name, 0, append([]uint64{}, c...))
 			rr := runEntry(p, e, src)
 			return rr, src.Tape()
 		}
@@ -225,6 +312,7 @@ func cmdWorker(args []string) int {
 			}
 			n++
 			kickWatchdog("sweep " + sw.Name)
+			noteInflight(sw.Entry, 0, tape)
 			src := choice.Replay(tape)
 			r := runEntry(p, e, src)
 			absorb(sw.Entry, r)
@@ -250,6 +338,7 @@ func cmdWorker(args []string) int {
 			e := p.FindEntry(name)
 			runSeed := choice.Mix(*seed, choice.MixString(p.ID+"/"+name), uint64(*shard), uint64(i))
 			src := choice.New(runSeed)
+			noteInflight(name, runSeed, nil)
 			kickWatchdog("explore " + name + " seed " + strconv.FormatUint(runSeed, 10))
 			r := runEntry(p, e, src)
 			so.ExploreRuns++
@@ -314,6 +403,23 @@ func cmdReplay(args []string) int {
 	if rf.Violation != nil && rf.Violation.Oracle == "data-race" && !raceEnabled {
 		fmt.Fprintln(os.Stderr, "HARNESS: this replay file records a data race; it needs the -race build (use /verif/check C14 --replay)")
 		return 2
+	}
+	if rf.Crash {
+		core.ApplyReplayEnv(rf.Env)
+		crashed, summary, frames := crashRun(rf.Property, rf.Entry, core.Quick(), rf.RunSeed, rf.Tape, rf.CrashTape)
+		if !crashed {
+			fmt.Println("REPLAY: no violation (the run no longer kills the process)")
+			return 0
+		}
+		v := crashViolation(rf.Property, summary, frames)
+		fmt.Printf("REPLAY-VIOLATION %s\n", mustJSON(v))
+		if rf.Violation != nil && *rf.Violation == *v {
+			fmt.Println("REPLAY: same violation as recorded")
+		} else {
+			fmt.Println("REPLAY: violation differs from the recorded one")
+		}
+		fmt.Printf("VIOLATION property=%s replay=%s\n", rf.Property, args[0])
+		return 1
 	}
 	ensureRaceLog()
 	p := core.Lookup(rf.Property)
@@ -475,6 +581,7 @@ func cmdRunTape(args []string) int {
 	propID := fs.String("prop", "", "")
 	entry := fs.String("entry", "", "")
 	tapeFile := fs.String("tapefile", "", "")
+	seed := fs.Uint64("seed", 0, "")
 	quick := fs.Bool("quick", true, "")
 	fs.Parse(args)
 	ensureRaceLog()
@@ -487,16 +594,21 @@ func cmdRunTape(args []string) int {
 		return 2
 	}
 	core.SetTier(*quick)
-	b, err := os.ReadFile(*tapeFile)
-	if err != nil {
-		return 2
-	}
-	var tape []uint64
-	if json.Unmarshal(b, &tape) != nil {
-		return 2
+	var src *choice.Src
+	if *tapeFile != "" {
+		b, err := os.ReadFile(*tapeFile)
+		if err != nil {
+			return 2
+		}
+		var tape []uint64
+		if json.Unmarshal(b, &tape) != nil {
+			return 2
+		}
+		src = choice.Replay(tape)
+	} else {
+		src = choice.New(*seed)
 	}
 	kickWatchdog("runtape")
-	src := choice.Replay(tape)
 	r := runEntry(p, e, src)
 	out, _ := json.Marshal(tapeResult{Violation: r.Violation, Used: src.Tape(), Faults: r.Faults, Trace: r.Trace, Sample: r.Sample})
 	fmt.Println("TAPERESULT " + string(out))
@@ -541,4 +653,13 @@ func subprocRun(prop, entry string, tape []uint64) (*core.Result, []uint64) {
 		}
 	}
 	return nil, nil
+}
+
+func crashViolation(prop, summary string, frames []string) *core.Violation {
+	where := "(no frame of the code under test on the crashing stack)"
+	if len(frames) > 0 {
+		where = strings.Join(frames, " <- ")
+	}
+	return &core.Violation{Property: prop, Oracle: "process-crash", Signature: "process crash: " + summary,
+		Detail: fmt.Sprintf("the run kills the process: %s in %s", summary, where)}
 }
